@@ -57,7 +57,10 @@ def NodeTest.bound (env : Env) : NodeTest → Bool
   | _ => true
 
 mutual
-/-- every prefix used in a node test is bound in the environment -/
+/-- every prefix used in a node test is bound in the environment.
+    (No longer a hypothesis of the refinement theorem: both evaluators resolve the prefix of a
+    node test before they look at the context nodes, so both fail on an unbound prefix; the
+    definition is kept for reference.) -/
 def prefixesBound (env : Env) : Expr → Bool
   | .bin _ l r => prefixesBound env l && prefixesBound env r
   | .neg e => prefixesBound env e
@@ -134,6 +137,70 @@ theorem NodeTest.apply_sublist {a : Arena} {env : Env} {ax : Axis} {t : NodeTest
     · cases h
     · cases h; exact List.filter_sublist
   all_goals (cases h; exact List.filter_sublist)
+
+/-! ## the node test on the empty list: resolution of the prefix, nothing else -/
+
+/-- a node test whose prefix is not bound is an error on every node list -/
+theorem NodeTest.apply_unbound (a : Arena) (env : Env) (ax : Axis) {t : NodeTest}
+    (hb : t.bound env = false) (l : List Nat) :
+    NodeTest.apply a env ax t l = .error .unboundPrefix := by
+  cases t <;> simp only [NodeTest.bound] at hb <;> try (exact absurd hb (by decide))
+  case nsAny p =>
+    cases hl : lookup p env.ns with
+    | none => simp only [NodeTest.apply, hl]
+    | some u => simp [hl] at hb
+  case qname p n =>
+    cases hl : lookup p env.ns with
+    | none => simp only [NodeTest.apply, hl]
+    | some u => simp [hl] at hb
+
+theorem NodeTest.apply_nil_bound (a : Arena) (env : Env) (ax : Axis) {t : NodeTest}
+    (hb : t.bound env = true) : NodeTest.apply a env ax t [] = .ok [] := by
+  rw [NodeTest.apply_eq a env ax hb]; rfl
+
+/-- on the empty list the node test only resolves its prefix -/
+theorem NodeTest.apply_nil_cases (a : Arena) (env : Env) (ax : Axis) (t : NodeTest) :
+    NodeTest.apply a env ax t [] = .ok [] ∨ NodeTest.apply a env ax t [] = .error .unboundPrefix := by
+  cases hb : t.bound env
+  · exact .inr (NodeTest.apply_unbound a env ax hb [])
+  · exact .inl (NodeTest.apply_nil_bound a env ax hb)
+
+theorem NodeTest.bound_of_ok {a : Arena} {env : Env} {ax : Axis} {t : NodeTest} {l r : List Nat}
+    (h : NodeTest.apply a env ax t l = .ok r) : t.bound env = true := by
+  cases hb : t.bound env
+  · rw [NodeTest.apply_unbound a env ax hb l] at h; cases h
+  · rfl
+
+/-- a node test that succeeds on some list succeeds on the empty list -/
+theorem NodeTest.apply_nil_of_ok {a : Arena} {env : Env} {ax : Axis} {t : NodeTest} {l r : List Nat}
+    (h : NodeTest.apply a env ax t l = .ok r) : NodeTest.apply a env ax t [] = .ok [] :=
+  NodeTest.apply_nil_bound a env ax (NodeTest.bound_of_ok h)
+
+theorem NodeTest.apply_nil_ok_iff {a : Arena} {env : Env} {ax : Axis} {t : NodeTest} {r : List Nat} :
+    NodeTest.apply a env ax t [] = .ok r ↔ (t.bound env = true ∧ r = []) := by
+  constructor
+  · intro h
+    have hb := NodeTest.bound_of_ok h
+    rw [NodeTest.apply_nil_bound a env ax hb] at h
+    cases h; exact ⟨hb, rfl⟩
+  · rintro ⟨hb, rfl⟩; exact NodeTest.apply_nil_bound a env ax hb
+
+/-- an error on the empty list is the same error on every list -/
+theorem NodeTest.apply_error_of_nil {a : Arena} {env : Env} {ax : Axis} {t : NodeTest} {e : Err}
+    (h : NodeTest.apply a env ax t [] = .error e) (l : List Nat) :
+    NodeTest.apply a env ax t l = .error e := by
+  cases hb : t.bound env
+  · rw [NodeTest.apply_unbound a env ax hb] at h ⊢; exact h
+  · rw [NodeTest.apply_nil_bound a env ax hb] at h; cases h
+
+/-- the check that precedes the per-node loop is redundant as soon as the loop runs once -/
+theorem NodeTest.nil_bind_apply (a : Arena) (env : Env) (ax : Axis) (t : NodeTest) (l : List Nat)
+    {β : Type} (k : List Nat → Except Err β) :
+    (NodeTest.apply a env ax t [] >>= fun _ => NodeTest.apply a env ax t l >>= k)
+      = (NodeTest.apply a env ax t l >>= k) := by
+  cases hb : t.bound env
+  · rw [NodeTest.apply_unbound a env ax hb, NodeTest.apply_unbound a env ax hb]; rfl
+  · rw [NodeTest.apply_nil_bound a env ax hb]; rfl
 
 /-! ## predicates return sublists -/
 
